@@ -568,6 +568,22 @@ class History:
         return "None"
 
     def line(self, toks):
+        """one op-file line under the watchdog: the call itself, the state dump and the oracles all
+        call into the implementation, and any of them may fail to return"""
+        try:
+            signal.alarm(WATCHDOG * (4 if toks[0] == "ORACLE" else 1))
+            try:
+                self._line(toks)
+            finally:
+                signal.alarm(0)
+        except Watchdog:
+            self.emit("EXC NonTermination")
+            self.viol.append("VIOL * %s %d non-termination: %s (or the dump / oracle calls after it) did not return within %d s" %
+                             (self.hid, self.step, " ".join(toks)[:60], WATCHDOG))
+            self.dead = True
+            WD_HITS.append(self.hid)
+
+    def _line(self, toks):
         if toks[0] == "DUMP":
             self.dumping = toks[1] != "0"
             t = self.maps.get(self.cur)
@@ -583,18 +599,9 @@ class History:
             return
         self.step += 1
         try:
-            signal.alarm(WATCHDOG)         # a call that does not return must not hang the check
-            try:
-                out = self.run_op(toks)
-            finally:
-                signal.alarm(0)
+            out = self.run_op(toks)
         except Watchdog:
-            self.emit("EXC NonTermination")
-            self.viol.append("VIOL * %s %d non-termination: %s did not return within %d s" %
-                             (self.hid, self.step, " ".join(toks)[:60], WATCHDOG))
-            self.dead = True
-            WD_HITS.append(self.hid)
-            return
+            raise
         except BaseException as e:        # noqa: an exception class the call should not raise
             name = type(e).__name__
             self.emit("EXC " + name)
@@ -646,9 +653,18 @@ def main():
                         mode = x[5:]
                 trace.append(raw.rstrip("\n"))
                 h = History(hid, mode, trace, viol)
-                out = h.construct(0, cap)
-                h.emit(out)
-                h.dump()
+                try:
+                    signal.alarm(WATCHDOG)
+                    try:
+                        out = h.construct(0, cap)
+                        h.emit(out)
+                        h.dump()
+                    finally:
+                        signal.alarm(0)
+                except Watchdog:
+                    viol.append("VIOL * %s 0 non-termination: the constructor (or the first dump) did not return within %d s" % (hid, WATCHDOG))
+                    h.dead = True
+                    WD_HITS.append(hid)
                 if 0 not in h.maps:
                     h.dead = True
                 continue
